@@ -24,7 +24,8 @@ Str(s) == s
 Strings == { <<>>, <<72,69,76,76,79>>, <<65>>, <<65,32,66>>, <<65,32,32,66>>, <<65,32,32,32,32,66>>, <<32,65>>, <<65,32>>, <<32>>, <<32,32>>,
              <<65,59,66>>, <<59>>, <<65,32,59,32,66>>, <<65,124,66>>, <<123,126,125>>, <<65,92,66>>, <<97,98,99>>, <<48,49,50>>,
              <<65,34,66>>, <<65,47,66>>, <<65,39,66>>, <<35,36,37,44,46>>, <<72,101,108,108,111,44,32,87,111,114,108,100,33>>,
-             [k \in 1..255 |-> 65 + (k % 26)], [k \in 1..255 |-> IF k % 5 = 0 THEN 32 ELSE 97 + (k % 26)], [k \in 1..64 |-> 32] }
+             [k \in 1..255 |-> 65 + (k % 26)], [k \in 1..255 |-> IF k % 5 = 0 THEN 32 ELSE 97 + (k % 26)], [k \in 1..64 |-> 32],
+             <<65,9,66>>, <<9>>, <<9,65,9>>, <<1,15>>, <<127,128,255>> }   \* a tab and other characters below $10 / above $7E are characters like any other
 \* "a matching pair of delimiters": any printable character that is not in the string (not a blank, not the comment character)
 Delims == {<<"dq", 34>>, <<"slash", 47>>, <<"sq", 39>>, <<"bar", 124>>, <<"d35", 35>>, <<"d91", 91>>, <<"d60", 60>>, <<"d36", 36>>, <<"d37", 37>>,
            <<"d33", 33>>, <<"d58", 58>>, <<"d46", 46>>, <<"d42", 42>>, <<"d40", 40>>, <<"d88", 88>>, <<"d64", 64>>, <<"d93", 93>>, <<"d62", 62>>}
